@@ -1,22 +1,28 @@
 """C15: rate limiter decides every call within its timeout; rejected calls go nowhere."""
 from ratelimiter_common import *
 PROP = "C15"
-RULE = ("as C02; callers are polled whenever woken (bursts) and also lazily (random); drops while sleeping; idle gaps of two periods followed by limit fresh callers; "
+RULE = ("as C02; callers are polled whenever woken (bursts) and also lazily (random); drops while sleeping; idle gaps of (about) two periods followed by limit+1 fresh callers at one "
+        "instant or spread over up to several periods, also for the periods (559, 561, 672, 801 ms) at which the f64 quotient of two periods is below 2.0; "
         "non-trivial = some caller had to wait or was rejected")
 
 
 def monitor(s, t):
+    """The property over the implementation's trace, nothing else. Readings left open by the text are all accepted:
+    'arrival' is the first poll for the deadline clauses (the latest reading) and the earlier of call()/first poll for the
+    later-window clause (the weakest demand); callers already waiting count as possible owners of spare capacity (a
+    first-come-first-served limiter is allowed); windows may be aligned to anything."""
     d = decode(s, t)
     if d is None:
         return "malformed or panicking run: %s" % t[:12]
     wt, limit, P, timeout, n = s[:NCFG]
     if limit < 1 or P <= 0:
         return None
+    K = 3 if wt == 2 else 1      # every admission the window type can still count lies within the last K periods
     now = 0
-    first, state, nstarts = {}, {}, {}
-    adm_times = []
-    last_touch = 0           # last instant at which a poll may have called try_acquire (limiter created at 0)
-    burst = None             # after two idle periods: {"t": instant, "k": fresh arrivals so far}
+    first, called, state, nstarts = {}, {}, {}, {}
+    adm = []                 # (instant, arrival of the caller if it had to wait else None)
+    last_touch = None        # last instant at which the limiter may have been consulted (a call() or a poll of an undecided caller)
+    gap_adm = 0              # admissions since the limiter was created / since the end of the last idle gap of two periods
     for (e, o) in d:
         op, a, b = e
         r, started, infl, mask = o
@@ -27,25 +33,42 @@ def monitor(s, t):
                     return "caller %d is still asleep at %d, beyond its arrival %d + timeout %d (not woken)" % (i, now, first[i], timeout)
         elif op == 2:
             state[a] = 'end'
+        elif op == 5:
+            if state.get(a, 'new') == 'new':
+                called.setdefault(a, now)
+                if last_touch is not None and now - last_touch >= 2 * P:
+                    gap_adm = 0
+                last_touch = now
         elif op == 1:
             i = a
             st = state.get(i, 'new')
             if st == 'end':
                 continue
+            if started > 1:
+                return "caller %d's request reached the inner service %d times in one poll" % (i, started)
+            if st in ('new', 'wait'):
+                if last_touch is not None and now - last_touch >= 2 * P:
+                    gap_adm = 0          # the limiter has been idle for two full periods
+                last_touch = now
             if st == 'new':
                 first[i] = now
-                # spare capacity for certain: nothing was admitted during the last two periods before this
-                # instant, and fewer than `limit` calls have been admitted at this very instant
-                recent = [x for x in adm_times if now - 2 * P < x < now]
-                at_now = sum(1 for x in adm_times if x == now)
-                if not recent and at_now < limit and not started:
-                    return ("fresh caller %d at %d was not admitted at once although nothing was admitted in the two periods before and only %d of %d permits were taken at this instant"
-                            % (i, now, at_now, limit))
-            if st in ('new', 'wait'):
-                last_touch_new = now
+                called.setdefault(i, now)
+                waiting = sum(1 for x in state.values() if x == 'wait')
+                if not started:
+                    # admitted at once when the current window has spare capacity: whatever the window alignment, all
+                    # admissions the limiter can still hold against this caller lie within the last K periods
+                    recent = sum(1 for (x, _) in adm if now - K * P < x <= now)
+                    if recent + waiting < limit:
+                        return ("fresh caller %d at %d was not admitted at once although only %d call(s) were admitted in the last %d ms and %d caller(s) were waiting (limit %d)"
+                                % (i, now, recent, K * P, waiting, limit))
+                    # after two idle periods (or a new limiter) the next limit calls are admitted without waiting
+                    if gap_adm + waiting < limit:
+                        return ("fresh caller %d at %d was not admitted at once although the limiter had been idle for two periods (or was new) and only %d call(s) "
+                                "were admitted since, %d waiting (limit %d)" % (i, now, gap_adm, waiting, limit))
             if started:
-                adm_times.append(now)
-                nstarts[i] = nstarts.get(i, 0) + 1
+                gap_adm += started
+                adm.append((now, called[i] if (st == 'wait' and called[i] < now) else None))
+                nstarts[i] = nstarts.get(i, 0) + started
                 if nstarts[i] > 1:
                     return "caller %d reached the inner service %d times" % (i, nstarts[i])
             if r == 3:
@@ -53,6 +76,8 @@ def monitor(s, t):
                     return "rejected caller %d reached the inner service" % i
                 state[i] = 'end'
             elif r in (1, 2, 5):
+                if r in (1, 2) and not nstarts.get(i):
+                    return "caller %d got the inner service's result without its request having reached the inner service" % i
                 state[i] = 'end'
             elif r == 0:
                 if started or st == 'run':
@@ -61,6 +86,13 @@ def monitor(s, t):
                     state[i] = 'wait'
                     if now >= first[i] + timeout:
                         return "caller %d polled at %d is still undecided at/after its arrival %d + timeout %d" % (i, now, first[i], timeout)
-            if st in ('new', 'wait'):
-                last_touch = now
+    if wt == 0:
+        # fixed window: a caller admitted after waiting took a permit of a later window: some valid cut of time into
+        # windows puts a cut between its arrival and its admission
+        times = [x for (x, _) in adm]
+        if not feasible(times, limit, P, arrived=[w for (_, w) in adm]):
+            if feasible(times, limit, P):
+                return ("fixed window: admissions %s (arrival of those that waited: %s) cannot be cut into windows >= %d ms with <= %d admissions such that every "
+                        "caller that waited is admitted in a later window than the one it arrived in" % (times, [w for (_, w) in adm], P, limit))
+            return "fixed window: admissions at %s cannot be cut into consecutive windows >= %d ms with at most %d admissions each" % (times, P, limit)
     return None
